@@ -49,7 +49,10 @@ class GatePolicy(taint.Policy):
     def describer(self, eng, fn):
         d = self.descs.get(fn["id"])
         if d is None:
-            d = descr.Describer(self.f, eng.body(fn), rets=lambda fid: self.ret_desc(eng, fid))
+            if getattr(self, "_succctx", None) is None:
+                from .absint import SuccCtx
+                self._succctx = SuccCtx(self.f)
+            d = descr.Describer(self.f, eng.body(fn), rets=lambda fid: self.ret_desc(eng, fid), ctx=self._succctx)
             self.descs[fn["id"]] = d
         return d
 
@@ -337,17 +340,72 @@ def success_blocks(body):
     return out
 
 
-def _reaches_any(body, start, targets):
+def _reaches_any(body, start, targets, facts=None):
+    """Is a block of `targets` reachable from `start`?  Path-sensitive in bool locals that are assigned literal
+    constants on the way (`let bad = a || b; if bad { return None }` lowers to `bad = true` on one edge and a later
+    switch on `bad`): a switch on such a local whose value is known follows only the matching edge."""
+    flags = set()
+    if facts is not None:
+        for l, ds in body.defs().items():
+            if facts.ty(body.local_ty(l)).get("k") == "bool" and any(
+                    d[2] == "A" and d[3][2][0] == "use" and const_int(d[3][2][1]) in (0, 1) for d in ds):
+                flags.add(l)
+
+    def flag_of(op):
+        l = operand_local(op)
+        neg = False
+        for _ in range(6):
+            if l is None:
+                return None
+            if l in flags:
+                return l, neg
+            d = body.single_def(l)
+            if d and d[2] == "A" and d[3][2][0] == "use":
+                l = operand_local(d[3][2][1])
+            elif d and d[2] == "A" and d[3][2][0] == "un" and d[3][2][1] == "Not":
+                l = operand_local(d[3][2][2])
+                neg = not neg
+            else:
+                return None
+        return None
+
     seen = set()
-    st = [start]
-    while st:
-        x = st.pop()
-        if x in seen:
+    st = [(start, frozenset())]
+    steps = 0
+    while st and steps < 100000:
+        steps += 1
+        x, fv = st.pop()
+        if (x, fv) in seen:
             continue
-        seen.add(x)
+        seen.add((x, fv))
         if x in targets:
             return True
-        st.extend(body.succ[x])
+        known = dict(fv)
+        for s_ in body.blocks[x]["s"]:
+            if s_[0] == "A" and len(s_[1]) == 1 and s_[1][0] in flags:
+                c = const_int(s_[2][1]) if s_[2][0] == "use" else None
+                if c in (0, 1):
+                    known[s_[1][0]] = c
+                else:
+                    known.pop(s_[1][0], None)
+        t = body.blocks[x]["t"]
+        if t[0] == "call" and t[3] and len(t[3]) == 1:
+            known.pop(t[3][0], None)
+        nfv = frozenset(known.items())
+        if t[0] == "switch":
+            fo = flag_of(t[1])
+            if fo is not None and fo[0] in known:
+                val = known[fo[0]] ^ (1 if fo[1] else 0)
+                tgt = None
+                for v, b_ in t[2]:
+                    if int(v) == val:
+                        tgt = b_
+                if tgt is None:
+                    tgt = t[3]
+                st.append((tgt, nfv))
+                continue
+        for y in body.succ[x]:
+            st.append((y, nfv))
     return False
 
 
@@ -388,7 +446,7 @@ def reject_ok(facts, site, memo):
             for sb in switches:
                 t = body.blocks[sb]["t"]
                 edges = [b for _v, b in t[2]] + [t[3]]
-                if any(not _reaches_any(body, e, succ) for e in edges):
+                if any(not _reaches_any(body, e, succ, facts) for e in edges):
                     res = True
                     break
                 res = False
